@@ -231,20 +231,20 @@ def eval_case(case):
             err = abs(fss - p_th)
             aux = {'err_over_se': err / se if se > 0 else None,
                    'err_over_range': err / (pr - pl), 'p_th': p_th, 'fss': fss, 'se': se}
-            if err > tol:
+            if not err <= tol:
                 fail('recovers_planted_threshold',
                      f'p_th_fss={fss:.6f} planted {p_th:.6f}: error {err:.2e} > '
                      f'max(4 se={4 * se:.2e}, 3% range={0.03 * (pr - pl):.2e})')
             # the best-fit threshold reported next to it (first of the five
             # fit parameters, the one the data-collapse is drawn with)
             best = float(np.asarray(r['fss_params'], dtype=float)[0])
-            if abs(best - p_th) > tol:
+            if not abs(best - p_th) <= tol:
                 fail('best_fit_threshold_recovers_planted',
                      f'fss_params[0]={best:.6f} planted {p_th:.6f} (p_th_fss={fss:.6f}): '
                      f'error {abs(best - p_th):.2e} > {tol:.2e}')
             if len(rows) > 1:
                 f2 = float(rows[1]['p_th_fss'])
-                if abs(f2 - fss) > 1e-9 * max(abs(fss), 1e-12):
+                if not abs(f2 - fss) <= 1e-9 * max(abs(fss), 1e-12):
                     fail('order_invariant', f'p_th_fss {fss!r} vs {f2!r} for two file/row orders')
     shutil.rmtree(base, ignore_errors=True)
     for f in fails:
